@@ -41,7 +41,7 @@ impl Monitor for C04 {
         if tier == Tier::Sanitizer {
             vec!["calls_returned"]
         } else {
-            vec!["calls_returned", "still_transmits", "hostile_mac_accepted", "hostile_joinaccept_accepted", "oversized_delivered", "rxc_listen_calls", "unknown_cid_delivered", "otaa_histories", "abp_histories"]
+            vec!["calls_returned", "still_transmits", "hostile_mac_accepted", "hostile_joinaccept_accepted", "authentic_arbitrary_layout_delivered", "oversized_delivered", "rxc_listen_calls", "unknown_cid_delivered", "otaa_histories", "abp_histories"]
         }
     }
 
@@ -269,6 +269,22 @@ impl World {
                 cmds.extend(rng.bytes_below(4));
                 cmds.truncate(40);
                 n.mac_downlink(f, &cmds, rng.bool())
+            }
+            (Hit::TruncatedCmd, Some(n)) if rng.bool() => {
+                // authentic in address, counter and MIC, but everything between the counter and the
+                // MIC is arbitrary (FOptsLen promising more than the frame holds, no FPort, ...):
+                // assembled octet by octet, no encoder would produce it
+                col.event("authentic_arbitrary_layout_delivered");
+                let mut v = vec![if rng.bool() { 0x60u8 } else { 0xA0 }];
+                v.extend_from_slice(&n.addr.to_le_bytes());
+                v.push(if rng.bool() { rng.u8() & 0x0f } else { rng.u8() });
+                v.extend_from_slice(&(f as u16).to_le_bytes());
+                let span = if rng.chance(1, 3) { 30 } else { 6 };
+                let body = rng.below(span) as usize;
+                v.extend(rng.bytes(body));
+                let mic = lrv_core::refcodec::data_mic(&n.nwk, &v, 1, n.addr, f);
+                v.extend_from_slice(&mic);
+                v
             }
             (Hit::TruncatedCmd, Some(n)) => {
                 let mut cmds = hostile_mac(self.reg, rng, None);
@@ -577,6 +593,7 @@ fn single_channel(reg: Reg, front: Front, ch: u8, rng: &mut Prng, col: &mut Coll
     col.event("abp_histories");
     let net = w.net().unwrap();
     let mut cmds: Vec<u8> = vec![];
+    let mut f_dyn = 0u32;
     if reg.fixed() {
         // fixed plans: a bank of 125 kHz channels reduced to two neighbours, or one 500 kHz channel
         let k = ch as u32 % 8;
@@ -590,6 +607,7 @@ fn single_channel(reg: Reg, front: Front, ch: u8, rng: &mut Prng, col: &mut Coll
     } else {
         let (lo, hi) = reg.inner_band();
         let f = (lo + rng.below(((hi - lo) / 100) as u64) as u32 * 100) / 100;
+        f_dyn = f;
         if (ch as usize) >= reg.default_channels().len() {
             cmds.extend(new_channel_req(ch, f, 0x50));
         }
@@ -603,7 +621,14 @@ fn single_channel(reg: Reg, front: Front, ch: u8, rng: &mut Prng, col: &mut Coll
     // (NewChannelReq with frequency 0): refused or not, the device must go on transmitting
     let deleter = if !reg.fixed() && (ch as usize) >= reg.default_channels().len() {
         col.event("delete_last_channel_attempts");
-        Some(Script::rx1(net.mac_downlink(1, &new_channel_req(ch, 0, 0x50), rng.bool())))
+        // (or to re-define it with a frequency or a data-rate range the device has to refuse: the
+        // refusal must leave the channel as it was)
+        let req = match rng.below(3) {
+            0 => new_channel_req(ch, 0, 0x50),
+            1 => new_channel_req(ch, 1_000_000, 0x50),
+            _ => new_channel_req(ch, f_dyn, 0x05),
+        };
+        Some(Script::rx1(net.mac_downlink(1, &req, rng.bool())))
     } else {
         None
     };
